@@ -48,13 +48,17 @@ import os as _os
 
 from vf.core import REPO as _REPO, HarnessError as _HarnessError, lean_str as _lean_str, lean_list as _lean_list
 
-MODULES = ["Model.Tree", "Proofs.Tree", "Generated.C08", "Properties.C08"]
+MODULES = ["Model.Tree", "Proofs.Tree", "Proofs.TreeFrame", "Proofs.TreeCopy", "Proofs.TreeRun", "Proofs.TreeNorm",
+           "Proofs.TreeWalk", "Proofs.TreeRepair", "Generated.C08", "Properties.C08"]
 _P = "SqlglotModel.Properties.C08."
 THEOREMS = [_P + n for n in (
-    "inv_init", "inv_new", "inv_set", "inv_append", "inv_replace", "inv_pop", "inv_hash", "inv_eq",
+    "inv_init", "inv_new", "inv_set", "inv_append", "inv_replace", "inv_pop", "inv_hash", "inv_eq", "inv_copy",
+    "inv_transform", "inv_replace_children", "inv_simplify_repair",
     "inv_reachable", "inv_reachable_from_empty", "no_node_stored_twice", "child_records_its_slot",
-    "uncached_child_uncached_parent", "cached_hash_is_recomputed", "eq_iff_recomputed", "eq_different_class",
-    "freeHash_collision_free", "closure_needed", "generated_structure_ok",
+    "uncached_child_uncached_parent", "cached_hash_is_recomputed", "eq_iff_recomputed", "eq_iff_structure",
+    "eq_different_class", "freeHash_collision_free", "freeHash_eval", "closure_needed",
+    "negative_index_breaks_links", "negative_index_normalised_witness", "negative_index_normalised_ok",
+    "replace_by_own_child_leaves_husk", "generated_structure_ok",
 )]
 
 
@@ -1455,6 +1459,81 @@ def _eq_is_hash(fn) -> bool:
     return "hash(self) == hash(other)" in src and "type(self) is type(other)" in src
 
 
+_DEEPCOPY_LOOP = """for k, vs in node.args.items():
+    if isinstance(vs, Expr):
+        stack.append((vs, vs.__class__()))
+        copy.set(k, stack[-1][-1])
+    elif type(vs) is list:
+        copy.args[k] = []
+        for v in vs:
+            if isinstance(v, Expr):
+                stack.append((v, v.__class__()))
+                copy.append(k, stack[-1][-1])
+            else:
+                copy.append(k, v)
+    else:
+        copy.args[k] = vs"""
+_TRANSFORM_LOOP = """for node in (self.copy() if copy else self).dfs(prune=lambda n: n is not new_node):
+    parent, arg_key, index = (node.parent, node.arg_key, node.index)
+    new_node = fun(node, *args, **kwargs)
+    if not root:
+        root = new_node
+    elif parent and arg_key and (new_node is not node):
+        parent.set(arg_key, new_node, index)"""
+_DFS_BODY = """stack = [self]
+while stack:
+    node = stack.pop()
+    yield node
+    if prune and prune(node):
+        continue
+    for v in node.iter_expressions(reverse=True):
+        stack.append(v)"""
+_RC_LOOP = """for k, v in tuple(expression.args.items()):
+    is_list_arg = type(v) is list
+    child_nodes = v if is_list_arg else [v]
+    new_child_nodes = []
+    for cn in child_nodes:
+        if isinstance(cn, Expr):
+            for child_node in ensure_collection(fun(cn, *args, **kwargs)):
+                new_child_nodes.append(child_node)
+        else:
+            new_child_nodes.append(cn)
+    if is_list_arg:
+        expression.set(k, new_child_nodes)
+    else:
+        expression.set(k, seq_get(new_child_nodes, 0))"""
+_REPAIR_LOOP = """for k, v in tuple(original.args.items()):
+    if v is None:
+        original.args.pop(k)
+    else:
+        original._set_parent(k, v)"""
+
+
+def _stmts(fn, kind):
+    return [_ast.unparse(st) for st in _ast.walk(fn) if isinstance(st, kind)] if fn is not None else []
+
+
+def _loop_shapes(core_tree) -> dict:
+    """the loops the model mirrors statement by statement must read exactly as they did when the model was written"""
+    dc = _method(core_tree, "Expression", "__deepcopy__")
+    tr = _method(core_tree, "Expression", "transform")
+    dfs = _method(core_tree, "Expression", "dfs")
+    dsrc = _ast.unparse(dc) if dc else ""
+    out = {
+        "transformWalkShape": _TRANSFORM_LOOP in _stmts(tr, _ast.For) and dfs is not None
+                              and "\n".join(_ast.unparse(st) for st in dfs.body) == _DFS_BODY,
+        "deepcopyLoopShape": _DEEPCOPY_LOOP in _stmts(dc, _ast.For) and "node, copy = stack.pop()" in dsrc
+                             and "stack: list[tuple[Expr, Expr]] = [(self, root)]" in dsrc
+                             and 0 <= dsrc.find("copy._hash = node._hash") < dsrc.find("for k, vs in node.args.items()"),
+    }
+    b = _ast.parse(open(_os.path.join(_REPO, "sqlglot", "expressions", "builders.py"), encoding="utf-8").read())
+    rc = next((f for f in b.body if isinstance(f, _ast.FunctionDef) and f.name == "replace_children"), None)
+    out["replaceChildrenShape"] = _RC_LOOP in _stmts(rc, _ast.For)
+    sm = _ast.parse(open(_os.path.join(_REPO, "sqlglot", "optimizer", "simplify.py"), encoding="utf-8").read())
+    out["simplifyRepairShape"] = _REPAIR_LOOP in [_ast.unparse(st) for st in _ast.walk(sm) if isinstance(st, _ast.For)]
+    return out
+
+
 def translate(chk) -> str:
     path = _os.path.join(_REPO, "sqlglot", "expressions", "core.py")
     tree = _ast.parse(open(path, encoding="utf-8").read())
@@ -1464,6 +1543,7 @@ def translate(chk) -> str:
         "replaceClearsPointers": _replace_clears(_method(tree, "Expression", "replace")),
         "eqIsHashEquality": _eq_is_hash(_method(tree, "Expression", "__eq__")),
     }
+    facts.update(_loop_shapes(tree))
     # not a required shape: which of the two modelled variants of `set(k, None, index<0)` the source has
     set_src = _ast.unparse(_method(tree, "Expression", "set")) if _method(tree, "Expression", "set") else ""
     neg_norm = "if index < 0" in set_src
@@ -1519,6 +1599,20 @@ class RealHeap:
         self.ids[id(o)] = len(self.reg)
         self.reg.append(o)
 
+    def _register_copy(self, c):
+        """registry order = allocation order of __deepcopy__: the root first; popping a pair allocates the copies of its
+        children in args order (pushing them), and the LAST pushed pair is popped next"""
+        from sqlglot.expressions.core import Expr
+        self._register(c)
+        stack = [c]
+        while stack:
+            o = stack.pop()
+            for v in o.args.values():
+                kids = [v] if isinstance(v, Expr) else [x for x in v if isinstance(x, Expr)] if type(v) is list else []
+                for kid in kids:
+                    self._register(kid)
+                    stack.append(kid)
+
     def _mk_lit(self, txt):
         o = self.cls["literal"]()
         self._register(o)
@@ -1529,6 +1623,11 @@ class RealHeap:
     def user_fun(self, name):
         """the Python twins of `builtinFun` in Model/Tree.lean (fresh nodes are registered in allocation order)"""
         def fun(node):
+            if getattr(self, "_copy_pending", False):
+                # transform(copy=True): the first node handed to the function is the root of the fresh copy, whose cells
+                # were allocated before any cell the function creates
+                self._copy_pending = False
+                self._register_copy(node)
             in_list = node.index is not None
             if name == "lit" and node.key == "column":
                 return self._mk_lit("0")
@@ -1579,7 +1678,18 @@ class RealHeap:
                 self.reg[op["n"]].set(op["k"], None, index=-op["back"])
                 return "ok"
             if kind == "transform":
-                self.reg[op["n"]].transform(self.user_fun(op["fun"]), copy=False)
+                cp = bool(op.get("copy"))
+                self._copy_pending = cp
+                self.reg[op["n"]].transform(self.user_fun(op["fun"]), copy=cp)
+                return "ok"
+            if kind == "repair":
+                # the simplifier's pointer repair loop (sqlglot/optimizer/simplify.py; shape checked by the translator)
+                o = self.reg[op["n"]]
+                for k, v in tuple(o.args.items()):
+                    if v is None:
+                        o.args.pop(k)
+                    else:
+                        o._set_parent(k, v)
                 return "ok"
             if kind == "rc":
                 from sqlglot import exp as _exp
@@ -1602,17 +1712,7 @@ class RealHeap:
             if kind == "copy":
                 c = self.reg[op["n"]].copy()
                 first = len(self.reg)
-                # registry order = allocation order of __deepcopy__: the root first; popping a pair allocates the copies of
-                # its children in args order (pushing them), and the LAST pushed pair is popped next
-                self._register(c)
-                stack = [c]
-                while stack:
-                    o = stack.pop()
-                    for v in o.args.values():
-                        kids = [v] if isinstance(v, Expr) else [x for x in v if isinstance(x, Expr)] if type(v) is list else []
-                        for kid in kids:
-                            self._register(kid)
-                            stack.append(kid)
+                self._register_copy(c)
                 return f"copy {first}"
             raise _HarnessError(f"unknown op {kind}")
         except _HarnessError:
@@ -1753,6 +1853,8 @@ ALPHABET = [
     {"op": "transform", "n": 0, "fun": "wrap"}, {"op": "transform", "n": 3, "fun": "dup"}, {"op": "transform", "n": 0, "fun": "lit"},
     {"op": "transform", "n": 0, "fun": "drop"}, {"op": "transform", "n": 9, "fun": "mut"},
     {"op": "rc", "n": 3, "fun": "wrap"}, {"op": "rc", "n": 0, "fun": "lit"}, {"op": "rc", "n": 3, "fun": "dup"},
+    {"op": "transform", "n": 0, "fun": "wrap", "copy": True}, {"op": "transform", "n": 3, "fun": "dup", "copy": True},
+    {"op": "repair", "n": 3}, {"op": "repair", "n": 0},
 ]
 FUNS = ["id", "lit", "wrap", "drop", "dup", "mut"]
 
@@ -1923,7 +2025,13 @@ def random_history(rng, max_len, wild=0.08):
         elif r < 0.80:
             if real.has_cycle_from(tgt) or nreg > 60:
                 continue
-            res = emit({"op": "transform" if rng.random() < 0.6 else "rc", "n": tgt, "fun": rng.choice(FUNS)})
+            rr = rng.random()
+            if rr < 0.45:
+                res = emit({"op": "transform", "n": tgt, "fun": rng.choice(FUNS), "copy": rng.random() < 0.5})
+            elif rr < 0.8:
+                res = emit({"op": "rc", "n": tgt, "fun": rng.choice(FUNS)})
+            else:
+                res = emit({"op": "repair", "n": tgt})
         elif r < 0.91:
             res = emit({"op": "hash", "n": tgt})
         elif r < 0.96:
